@@ -172,6 +172,23 @@ PROPS = {
                      "the harness observes schedules the Go scheduler happens to produce (GOMAXPROCS 1/2/4/16, random latencies, async completions inline, from other goroutines, or "
                      "flushed inside Shutdown); the quantifier over ALL schedules is carried by the Lean component model, tied to the source by the skeleton equalities"],
     ),
+    "C17": dict(
+        components=[("timeout", 0, 20)],
+        parallel=12,
+        shrink=False,
+        case_timeout=200,
+        trusted=EXEC_TRUST + ["wall-clock measurement with coarse margins: return within timeout + 2 s after the source stopped when a node stalls; before the timeout when all nodes finish"],
+        assumptions=["the seconds are a runtime quantity: the Lean theorems are about the main goroutine's logic (the timer alone decides once it waits); the bound itself is measured"],
+    ),
+    "C18": dict(
+        components=[("supervise", 0, 12)],
+        parallel=12,
+        shrink=False,
+        case_timeout=200,
+        trusted=EXEC_TRUST + ["the pause before a restart is hard-coded (10 s): every restart in a scenario costs 10 s of wall clock; scenarios run in parallel processes"],
+        assumptions=["a failing Setup ends the process with os.Exit(1): exercised only manually (it would kill the harness); the model treats `setup i` as a successful Setup",
+                     "events of all incarnations flow through the one shared output channel, so C01-C03 apply to the concatenated stream (they are proved for arbitrary streams)"],
+    ),
     "C06": dict(
         components=[("offsets", 3000, 300000)],
         trusted=[KAFKA_CLIENT, "Go int64 arithmetic modelled by wrap64 on Int"],
